@@ -432,7 +432,43 @@ fn nest(open: &str, core: &str, close: &str, d: usize) -> String {
     s
 }
 
-pub const N_STRESS: u64 = 126;
+/// Nesting through EVERY child position of every fragment with children, as text: one level is
+/// `open X close`; `pad` copies of the wrapper `n:` are put in front of X, so that a level adds
+/// 1 + pad (+ the wrappers already in `open`) to the real depth while adding ONE parenthesis:
+/// the depth guard of from_ast / validate (tree_height), not the parser's parenthesis limit, is
+/// what has to stop these.  (label, open, core, close)
+pub const TEXT_POSITIONS: &[(&str, &str, &str, &str)] = &[
+    ("pos-andor-a", "andor(", "0", ",1,0)"),
+    ("pos-andor-b", "andor(0,", "1", ",0)"),
+    ("pos-andor-c", "andor(0,0,", "1", ")"),
+    ("pos-and_v-left", "and_v(v:", "1", ",1)"),
+    ("pos-and_v-right", "and_v(v:1,", "1", ")"),
+    ("pos-and_b-left", "and_b(", "1", ",a:1)"),
+    ("pos-and_b-right", "and_b(1,a:", "1", ")"),
+    ("pos-or_b-left", "or_b(", "0", ",a:0)"),
+    ("pos-or_b-right", "or_b(0,a:", "0", ")"),
+    ("pos-or_c-right", "and_v(or_c(0,v:", "1", "),1)"),
+    ("pos-or_d-left", "or_d(", "0", ",0)"),
+    ("pos-or_d-right", "or_d(0,", "1", ")"),
+    ("pos-or_i-left", "or_i(", "1", ",0)"),
+    ("pos-or_i-right", "or_i(0,", "1", ")"),
+    ("pos-thresh-first", "thresh(1,", "0", ",a:0)"),
+    ("pos-thresh-middle", "thresh(1,0,a:", "0", ",a:0)"),
+    ("pos-thresh-last", "thresh(1,0,a:0,a:", "0", ")"),
+];
+/// (levels, pad): real depth = levels * (1 + pad + wrappers in `open`), straddling 402
+pub const TEXT_DEPTHS: &[(usize, usize)] = &[(402, 0), (403, 0), (201, 1), (202, 1), (134, 2), (135, 2), (100, 4), (400, 9)];
+
+pub fn text_position(k: usize) -> (String, &'static str) {
+    let (label, open, core, close) = TEXT_POSITIONS[k / TEXT_DEPTHS.len()];
+    let (levels, pad) = TEXT_DEPTHS[k % TEXT_DEPTHS.len()];
+    let padded = if pad == 0 { open.to_string() } else { format!("{}{}:", open, "n".repeat(pad)) };
+    // `v:` / `a:` directly before the pad merge into one wrapper run ("a:nn:" is written "ann:")
+    let padded = padded.replace("a:n", "an").replace("v:n", "vn");
+    (nest(&padded, core, close, levels), label)
+}
+
+pub const N_STRESS: u64 = 126 + (TEXT_POSITIONS.len() * TEXT_DEPTHS.len()) as u64;
 
 /// fixed stress inputs; `k` in 0..N_STRESS. Shapes are phrased in the grammar of the family.
 pub fn stress_text(w: &RWorld, fam: Fam, k: u64) -> (String, &'static str) {
@@ -461,6 +497,13 @@ pub fn stress_text(w: &RWorld, fam: Fam, k: u64) -> (String, &'static str) {
         Fam::Conc | Fam::Sem => "and(",
         _ => "and_v(v:",
     };
+    if k >= 126 {
+        let (body, label) = text_position(k as usize - 126);
+        return match fam {
+            Fam::Desc => (format!("wsh({})", body), label),
+            _ => (body, label),
+        };
+    }
     if fam == Fam::Key {
         // key parsers: base58 / path shapes instead of wrapper shapes (sizes chosen far from
         // the time limit on either side: base58 decoding is quadratic in rust-bitcoin)
@@ -782,8 +825,81 @@ fn run_ms<Ctx: ScriptContext>(_w: &RWorld, i: &Input) -> Obs {
     }
 }
 
+/// The documented limit on the nesting depth of an accepted miniscript (MAX_RECURSION_DEPTH,
+/// ValidationParams::max_recursive_depth): 402.
+pub const DEPTH_LIMIT: usize = 402;
+
+/// Real nesting depth of a miniscript (leaf = 0, node = 1 + deepest child: the convention of
+/// `ExtData::tree_height`), computed by the harness's OWN traversal with an explicit stack
+/// (no library iterator, no recursion).
+pub fn real_height<Pk: miniscript::MiniscriptKey, Ctx: ScriptContext>(m: &Miniscript<Pk, Ctx>) -> usize {
+    use miniscript::Terminal as T;
+    let mut stack: Vec<(&Miniscript<Pk, Ctx>, usize)> = vec![(m, 0)];
+    let mut deepest = 0;
+    while let Some((x, d)) = stack.pop() {
+        if d > deepest {
+            deepest = d;
+        }
+        match &x.node {
+            T::Alt(a) | T::Swap(a) | T::Check(a) | T::DupIf(a) | T::Verify(a) | T::NonZero(a) | T::ZeroNotEqual(a) => stack.push((a, d + 1)),
+            T::AndV(a, b) | T::AndB(a, b) | T::OrB(a, b) | T::OrD(a, b) | T::OrC(a, b) | T::OrI(a, b) => {
+                stack.push((a, d + 1));
+                stack.push((b, d + 1));
+            }
+            T::AndOr(a, b, c) => {
+                stack.push((a, d + 1));
+                stack.push((b, d + 1));
+                stack.push((c, d + 1));
+            }
+            T::Thresh(th) => {
+                for c in th.iter() {
+                    stack.push((c, d + 1));
+                }
+            }
+            _ => {}
+        }
+    }
+    deepest
+}
+
+/// ORACLE that needs no crash: an accepted object nested deeper than the documented limit means
+/// the depth guard was bypassed; and the library's own `ext.tree_height` must be the real depth
+/// (it is what both guards compare with the limit). Reported as a panic with a recognisable
+/// message (tools/props/c11.py keys it as `oracle:`).
+pub fn depth_oracle<Pk: miniscript::MiniscriptKey, Ctx: ScriptContext>(m: &Miniscript<Pk, Ctx>, via: &str) {
+    let real = real_height(m);
+    if m.ext.tree_height != real {
+        // leak instead of dropping: the recursive Drop of a deep tree must not mask the report
+        let (th, r) = (m.ext.tree_height, real);
+        panic!("VERIF-ORACLE tree_height differs from the real nesting depth: ext.tree_height = {} but depth = {} ({})", th, r, via);
+    }
+    if real > DEPTH_LIMIT {
+        panic!("VERIF-ORACLE depth guard bypassed: accepted object nested {} deep, limit {} ({})", real, DEPTH_LIMIT, via);
+    }
+}
+
+pub fn depth_oracle_desc<Pk: miniscript::MiniscriptKey>(d: &Descriptor<Pk>, via: &str) {
+    use miniscript::descriptor::ShInner;
+    match d {
+        Descriptor::Bare(b) => depth_oracle(b.as_inner(), via),
+        Descriptor::Wsh(w) => depth_oracle(w.as_inner(), via),
+        Descriptor::Sh(sh) => match sh.as_inner() {
+            ShInner::Wsh(w) => depth_oracle(w.as_inner(), via),
+            ShInner::Ms(m) => depth_oracle(m, via),
+            _ => {}
+        },
+        Descriptor::Tr(tr) => {
+            for leaf in tr.leaves() {
+                depth_oracle(leaf.miniscript().as_ref(), via);
+            }
+        }
+        _ => {}
+    }
+}
+
 /// what a caller typically does with a parsed miniscript
 pub fn post_ms<Pk: miniscript::MiniscriptKey, Ctx: ScriptContext>(m: &Miniscript<Pk, Ctx>) {
+    depth_oracle(m, "accepted miniscript");
     let t = m.to_string();
     let _ = format!("{:?}", m);
     let _ = t.len();
@@ -864,6 +980,7 @@ fn run_desc_dpk(w: &RWorld, i: &Input) -> Obs {
 }
 
 pub fn post_desc<Pk: miniscript::MiniscriptKey>(d: &Descriptor<Pk>) {
+    depth_oracle_desc(d, "accepted descriptor");
     let _ = d.to_string();
     let _ = format!("{:#}", d);
     let _ = format!("{:?}", d);
